@@ -526,3 +526,28 @@ package internal
 //@   implements ResponseCache.GetRefs
 //@   requires r != nil && r.cache != nil
 //@   loop 0 invariant -1 <= rangeindex && rangeindex < len(refs) && (forall j int :: 0 <= j && j <= rangeindex ==> refs[j] != nil)
+
+// ---- variant matching (C04, C10) -----------------------------------------------------------
+//@ iface HeaderValueNormalizer.NormalizeHeaderValue(n, field, value)
+//@   pure
+//@   ensures result == normValue(field, value)
+// the cache's documented normalisation of a selecting header value (taken as the definition of equivalence)
+//@ spec func normValue(field string, value string) string
+
+// Comparator handed to slices.SortFunc, which calls it only on elements of the (non-nil) refs.
+//@ func (*varyMatcher).VaryHeadersMatch$1
+//@   property C10
+//@   pure
+//@   requires a != nil && b != nil
+
+//@ func (*varyMatcher).varyHeadersMatchOne
+//@   property C04 C10
+//@   pure
+//@   requires vm != nil && vm.hvn != nil && entry != nil
+//@   ensures result ==> entry.Vary != "*"                                 # name: star-never-matches   props: C04
+
+//@ func (*varyMatcher).VaryHeadersMatch
+//@   implements VaryMatcher.VaryHeadersMatch
+//@   property C04 C10
+//@   requires vm != nil && vm.hvn != nil
+//@   loop 0 invariant -1 <= rangeindex && rangeindex < len(entries) && allRefsNonNil(entries)
